@@ -268,6 +268,19 @@ theorem C03_Beap_costlists_increasing (E : Env S) (hnd : RowsNodup E.G) (hst : S
   have := (C03_Beap_order_inv E hnd hst hprod hpos fuel g h).1
   exact ⟨this.mono nt, this.low nt, this.heap nt⟩
 
+/-- **a completed cost index is exhausted**: once `_cost_lists[S]` has an entry after index `i` (i.e. `query(S, i)`
+    has returned), every element still in `_queues[S]` is strictly more expensive than `_cost_lists[S][i]` — no
+    derivation of cost `_cost_lists[S][i]` is left behind -/
+theorem C03_Beap_cost_exhausted (E : Env S) (hnd : RowsNodup E.G) (hst : StableAfter E) (hprod : Productive E)
+    (hpos : PosW E) (fuel : Nat) (g : Gen S) (h : C02Beap.Reach E fuel g) (nt : NT S Unit) (i : Nat) (c : Cost)
+    (hc : (g.st.clOf nt)[i]? = some c) (hi : i + 1 < (g.st.clOf nt).length) (el : HeapEl) (hel : el ∈ g.st.queueOf nt) :
+    c.fin < el.cost.fin := by
+  obtain ⟨hmono, hlow, _⟩ := C03_Beap_costlists_increasing E hnd hst hprod hpos fuel g h nt
+  obtain ⟨hi0, rfl⟩ := List.getElem?_eq_some_iff.mp hc
+  have h1 := List.pairwise_iff_getElem.mp hmono i (i + 1) hi0 hi (by omega)
+  have h2 := hlow el _ hel (List.getElem_mem hi)
+  grind
+
 theorem clSorted_of_oi (E : Env S) (s : St S) (h : OI s) : ClSorted E s := by
   intro i j x y hij hx hy
   obtain ⟨hi, rfl⟩ := List.getElem?_eq_some_iff.mp hx
